@@ -96,12 +96,58 @@ def _ast_size(t, cap=5000):
     return n if n < cap else f">={cap}"
 
 
+class Normalizer:
+    """z3.simplify driven bottom-up over the term DAG with a memo that persists across obligations of one case.
+
+    ``z3.simplify`` caches only within one call; the obligations of one case (every entry of every output array after
+    T steps) share almost all of their sub-DAG, and re-normalising it per entry dominated the wall time of the deep
+    tiers (2-5 s per entry at T = 5..7, minutes per case).  Here every DAG node is simplified once, with already
+    normalised children; the result of each step is z3's own equivalence-preserving simplification, so the verdicts
+    are unchanged."""
+
+    def __init__(self):
+        self.memo = {}
+
+    def __call__(self, t):
+        memo = self.memo
+        tid = t.get_id()
+        if tid in memo:
+            return memo[tid][1]
+        stack = [(t, False)]
+        while stack:
+            u, done = stack.pop()
+            uid = u.get_id()
+            if uid in memo:
+                continue
+            if not z3.is_app(u) or u.num_args() == 0:
+                memo[uid] = (u, u)
+                continue
+            ch = u.children()
+            if not done:
+                stack.append((u, True))
+                for c in ch:
+                    if c.get_id() not in memo:
+                        stack.append((c, False))
+                continue
+            nch = [memo[c.get_id()][1] for c in ch]
+            r = u
+            if any(not a.eq(b) for a, b in zip(ch, nch)):
+                try:
+                    r = u.decl()(*nch)
+                except Exception:  # noqa: BLE001  (parametric declarations that cannot be re-applied: keep the node)
+                    r = u
+            memo[uid] = (u, z3.simplify(r))
+        return memo[tid][1]
+
+
+
 class Case:
     """Per-case obligation context (one worker runs one case)."""
 
     def __init__(self, prop, name, tier, seed, timeout_ms):
         self.prop, self.name, self.tier, self.seed = prop, name, tier, seed
         self.timeout_ms = timeout_ms
+        self._norm = Normalizer()
         self.obligations = 0
         self.discharged = 0
         self.queries = 0
@@ -216,7 +262,7 @@ class Case:
             neg = z3.BoolVal(True)
         else:
             neg = z3.Not(claim)
-        sneg = z3.simplify(neg)
+        sneg = self._norm(neg)
         if z3.is_false(sneg):
             self.trivial += 1
         else:
@@ -319,7 +365,9 @@ class Case:
         if not isz(x) and not isz(y):
             d = abs(float(x) - float(y))
             return self.prove(name, bool(d <= tol), (), None, key) if d <= tol else self.prove(name, False, assume, replay, key)
-        d = z3.simplify(sc.toreal(sc.toz(x)) - sc.toreal(sc.toz(y)))  # cheap normalisation first: identical structure collapses to 0
+        if isz(x) and isz(y) and x.eq(y):
+            return self.prove(name, True)  # the same hash-consed term on both sides
+        d = self._norm(sc.toreal(sc.toz(x)) - sc.toreal(sc.toz(y)))  # cheap normalisation first: identical structure collapses to 0
         if not (z3.is_rational_value(d) or z3.is_int_value(d)):
             d = z3.simplify(d, som=True)
         if z3.is_rational_value(d) or z3.is_int_value(d):
